@@ -74,8 +74,10 @@ func errIs(v any, target any) bool {
 		return false
 	}
 	tv := target.(IfaceV)
-	if iv.V == tv.V {
-		return true
+	if _, isStruct := iv.V.(StructV); !isStruct {
+		if _, isStruct2 := tv.V.(StructV); !isStruct2 && iv.V == tv.V {
+			return true
+		}
 	}
 	if ev, ok := iv.V.(*ErrV); ok {
 		for _, w := range ev.wrap {
@@ -158,18 +160,39 @@ func (e *Engine) stub2(fn *ssa.Function, args []any) (any, bool) {
 		}
 		return false, true
 	case "fmt.Errorf":
+		// only %w operands are wrapped (errors.Is/As/Unwrap see them); other verbs just format
 		var w []any
 		if len(args) > 1 {
 			va := args[1].(SliceV)
-			for i := 0; i < va.len; i++ {
-				if iv, ok := (*va.arr)[va.off+i].(IfaceV); ok {
-					if inner, ok := iv.V.(*ErrV); ok {
-						_ = inner
-						w = append(w, iv)
-					} else if iv2, ok := iv.V.(IfaceV); ok && iv2.T != nil {
-						w = append(w, iv2)
+			format, _ := args[0].(string)
+			ai := 0
+			for i := 0; i < len(format); i++ {
+				if format[i] != '%' {
+					continue
+				}
+				j := i + 1
+				for j < len(format) && strings.IndexByte("+-# 0123456789.[]*", format[j]) >= 0 {
+					j++
+				}
+				if j >= len(format) {
+					break
+				}
+				if format[j] == '%' {
+					i = j
+					continue
+				}
+				if format[j] == 'w' && ai < va.len {
+					if iv, ok := (*va.arr)[va.off+ai].(IfaceV); ok && iv.T != nil {
+						if iv2, ok := iv.V.(IfaceV); ok { // an error boxed once more in the variadic any
+							iv = iv2
+						}
+						if iv.T != nil {
+							w = append(w, iv)
+						}
 					}
 				}
+				ai++
+				i = j
 			}
 		}
 		return e.mkErr(fmt.Sprint(args[0]), w...), true
